@@ -16,6 +16,7 @@ func propC16(r *Report, tier string) {
 	ruleDecoderBijection(r, rule, "mapping", "IndexMappingImpl", nil)
 	ruleAllExportedTagged(r, "K9b-tags-complete", "mapping", "customAnalysis")
 	ruleMappingStoredAndLoaded(r, "K11-mapping-store-load")
+	ruleOmitemptyNilVsEmpty(r, "K9-omitempty-nil-vs-empty", "mapping", "DocumentMapping", "IndexMappingImpl", "FieldMapping")
 	r.Floor(rule, 40)
 	r.Floor("K9b-tags-complete", 7)
 	r.Floor("K11-mapping-store-load", 4)
